@@ -137,7 +137,7 @@ def check_model_pair(mp: onnx.ModelProto, spec, tname, tf, stats, loop_bound=3, 
                 pass
             return None, None
         v = Q.compare(r1, r2, inputs, stats, tol_fn=tol_fn, skip_if_first_fails=True)
-        rec.update(verdict=v["verdict"], detail=v.get("detail", ""), kind=v.get("kind"))
+        rec.update(verdict=v["verdict"], detail=v.get("detail", ""), kind=v.get("kind"), grid=v.get("grid"))
         rec["uf"] = sorted(set().union(*[r["uf"] for r in r1 + r2]))
         rec["numeric_nodes"] = sum(r.get("numeric_nodes", 0) for r in r1 + r2)
         if v["verdict"] == "cex":
@@ -190,3 +190,72 @@ def corpus(tier: str, seed: int):
             continue
         items.append((m.SerializeToString(), [(a, int(b), tuple(c)) for a, b, c in spec], f"gen{i}", feats))
     return items
+
+
+# ------------------------------------------------------------------ diagnosis predicates for known findings
+def _const_arrays(mp):
+    from onnx import numpy_helper as nh
+    consts = {t.name: nh.to_array(t) for t in mp.graph.initializer}
+    for n in mp.graph.node:
+        if n.op_type == "Constant":
+            for a in n.attribute:
+                if a.name == "value":
+                    consts[n.output[0]] = nh.to_array(a.t)
+    return consts
+
+
+def _count_nodes(mp, pred):
+    c = 0
+    def walk(g):
+        nonlocal c
+        for n in g.node:
+            if pred(n):
+                c += 1
+            for a in n.attribute:
+                if a.type == onnx.AttributeProto.GRAPH:
+                    walk(a.g)
+    walk(mp.graph)
+    return c
+
+
+def diag_eps_identity(orig, new):
+    """an Add/Sub whose constant operand is within the matcher's tolerance of 0 (or Mul/Div of 1) but not equal
+    to it was removed"""
+    consts = _const_arrays(orig)
+    ginputs = {i.name for i in orig.graph.input}
+
+    def near(n):
+        if n.op_type not in ("Add", "Sub", "Mul", "Div"):
+            return False
+        target = 0.0 if n.op_type in ("Add", "Sub") else 1.0
+        for i in n.input:
+            if i in consts and i not in ginputs and consts[i].dtype.kind == "f" and consts[i].size == 1:
+                v = float(consts[i].reshape(-1)[0])
+                if v != target and abs(v - target) <= max(1e-5 * max(abs(v), abs(target)), 1e-8):
+                    return True
+        return False
+    return _count_nodes(orig, near) > 0 and _count_nodes(new, lambda n: n.op_type in ("Add", "Sub", "Mul", "Div")) < _count_nodes(orig, lambda n: n.op_type in ("Add", "Sub", "Mul", "Div"))
+
+
+def diag_minmax_initializer_input(orig, new):
+    ginputs = {i.name for i in orig.graph.input}
+    inits = {t.name for t in orig.graph.initializer}
+    both = ginputs & inits
+    return _count_nodes(orig, lambda n: n.op_type in ("Min", "Max") and any(i in both for i in n.input)) > 0
+
+
+DIAG = {"eps_identity": diag_eps_identity, "minmax_initializer_input": diag_minmax_initializer_input}
+
+
+def diagnose(name, rec) -> bool:
+    import base64
+    rr = rec.get("replay_record") or {}
+    rb = rr.get("rebuild") or {}
+    if "model_a_b64" not in rb or name not in DIAG:
+        return False
+    try:
+        a = onnx.load_from_string(base64.b64decode(rb["model_a_b64"]))
+        b = onnx.load_from_string(base64.b64decode(rb["model_b_b64"]))
+        return bool(DIAG[name](a, b))
+    except Exception:  # noqa: BLE001
+        return False
